@@ -37,6 +37,10 @@ func keyFromSeed(r *rand.Rand) *ecdsa.PrivateKey {
 // bareProtocol builds a PortalProtocol that is never started (no sockets): enough for
 // the version cache and the framing helpers.
 func bareProtocol(r *rand.Rand, versions []uint8) (*portalwire.PortalProtocol, *enode.LocalNode) {
+	return bareProtocolWithStore(r, versions, &storage.MockStorage{Db: map[string][]byte{}})
+}
+
+func bareProtocolWithStore(r *rand.Rand, versions []uint8, store storage.ContentStorage) (*portalwire.PortalProtocol, *enode.LocalNode) {
 	key := keyFromSeed(r)
 	db, _ := enode.OpenDB("")
 	ln := enode.NewLocalNode(db, key)
@@ -48,7 +52,7 @@ func bareProtocol(r *rand.Rand, versions []uint8) (*portalwire.PortalProtocol, *
 	conf := portalwire.DefaultPortalProtocolConfig()
 	vc := cache.NewCache[*enode.Node, uint8]().WithMaxKeys(1000).WithTTL(time.Hour)
 	p, err := portalwire.NewPortalProtocol(conf, portalwire.History, key, nil, ln, nil, nil,
-		&storage.MockStorage{Db: map[string][]byte{}}, make(chan *portalwire.ContentElement, 50), vc)
+		store, make(chan *portalwire.ContentElement, 50), vc)
 	if err != nil {
 		panic(err)
 	}
